@@ -27,6 +27,8 @@ def oracle(req, impl, build):
 
 
 def extra(binary, build, tier, rng):
+    if build != "dev" and tier == "quick":
+        return          # the exhaustive / statistical searches run once per quick check (dev profile)
     from .enum_oracle import run_enum
     specs = [(kind, n, 0, 60, 1) for kind in ("choose", "single", "index") for n in (1, 2, 3, 4, 5, 6, 10, 12, 15, 20, 30, 60)]
     yield from run_enum(binary, specs, "enumerated-draws")
